@@ -63,10 +63,11 @@ type CtxIn struct {
 }
 
 type Case struct {
-	Kind   string   `json:"kind"` // contains | clamp | parsetimerange | parserange | mutes | stage | sys | cfg
+	Kind   string   `json:"kind"` // contains | clamp | parsetimerange | parserange | mutes | stage | sys | cfg | mutesseq | stageseq
 	Clamp  []int    `json:"clamp,omitempty"` // n, lo, hi
 	Sys    *SysIn   `json:"sys,omitempty"`
 	Cfg    *CfgIn   `json:"cfg,omitempty"`
+	Queries []Query `json:"queries,omitempty"` // mutesseq | stageseq: questions put to ONE long-lived Intervener / stage
 	YAML   string   `json:"yaml,omitempty"`
 	Want   *Intent  `json:"want,omitempty"`
 	Insts  []InstIn `json:"insts,omitempty"`
@@ -1306,11 +1307,17 @@ func TestCheck(t *testing.T) {
 		for i, n := 0, env.N(600, 10); i < n; i++ {
 			cases = append(cases, genStageCase(r.Fork()))
 		}
-		for i, n := 0, env.N(60, 10); i < n; i++ {
+		for i, n := 0, env.N(90, 10); i < n; i++ {
 			cases = append(cases, genSysCase(r.Fork()))
 		}
 		for i, n := 0, env.N(150, 10); i < n; i++ {
 			cases = append(cases, genCfgCase(r.Fork()))
+		}
+		for i, n := 0, env.N(300, 10); i < n; i++ {
+			cases = append(cases, genMutesSeqCase(r.Fork()))
+		}
+		for i, n := 0, env.N(300, 10); i < n; i++ {
+			cases = append(cases, genStageSeqCase(r.Fork()))
 		}
 		// spread the heavy contains cases evenly over the shards (the order is still a function of the seed)
 		gen := cases[nCorpus:]
@@ -1337,6 +1344,10 @@ func TestCheck(t *testing.T) {
 			rn.sys(c)
 		case "cfg":
 			rn.cfg(c)
+		case "mutesseq":
+			rn.mutesSeq(c)
+		case "stageseq":
+			rn.stageSeq(c)
 		default:
 			t.Fatalf("unknown case kind %q", c.Kind)
 		}
